@@ -161,8 +161,11 @@ def has_raw(pk):
     items = pk.items() if isinstance(pk, dict) else pk
     for mono, _ in items:
         for a in mono:
-            if isinstance(a, str) and (" if " in a or "(" in a or " " in a.strip()):
-                return True
+            if isinstance(a, str):
+                known = a.replace("$", "").replace("_", "").isalnum() or \
+                    a.startswith(tuple(v + "[" for v in set(TABLE_NAMES.values()) | {"rvect", "wvect", "cvect"}))
+                if not known or " if " in a:
+                    return True
     return False
 
 
